@@ -168,6 +168,55 @@ def _impl_method(prog, self_suffix, name):
     raise AnchorMissing("%s::%s" % (self_suffix, name))
 
 
+def rule_target_kept(check):
+    """TARGET-KEPT: JavaScript evaluates the target of an assignment (its object and key) before the right-hand
+    side.  The temporaries of an instrumented `x.y += v` are assigned inside the right-hand side, so none of
+    them may appear in the target of the emitted assignment: it would be read before it is assigned"""
+    R = "TARGET-KEPT"
+    check.rule(R, "every AssignExpr the crate builds has as its target either the whole target of an input assignment (a copy of `<input>.left`) or a bare injected identifier (`tmp = value`): a target assembled from parts can contain a temporary, which JavaScript reads - evaluating the target reference - before the right-hand side assigns it")
+    prog = check.prog
+    n = 0
+    for f in prog.user_fns:
+        if f.rec.get("gen"):
+            continue
+        for x in f.nodes():
+            if x.get("k") != "Struct" or not (x["res"].get("path") or "").endswith("swc_ecma_ast::AssignExpr"):
+                continue
+            left = [fl["e"] for fl in x["fields"] if fl["name"] == "left"]
+            if not left:
+                if x.get("base") is not None or x.get("rest") is not None:
+                    n += 1
+                    check.ok(R, "%s/%s" % (R, f.name), hir.loc(x), "functional update: the target is the input's")
+                continue
+            n += 1
+            e = hir.peel_transparent(left[0])
+            kind = None
+            # a copy of the left of an input assignment
+            if e.get("k") == "Field" and e["field"] == "left" and "AssignExpr" in (e.get("base_ty") or ""):
+                kind = "the target of the input assignment"
+            else:
+                # AssignTarget::Simple(SimpleAssignTarget::Ident(BindingIdent { id, .. })) / conversions of an identifier
+                cur, depth = e, 0
+                while depth < 6:
+                    depth += 1
+                    cur = hir.peel_transparent(cur)
+                    if cur.get("k") == "Call" and len(cur.get("args", [])) == 1 and (hir.peel(cur["f"]).get("res", {}).get("ctor_path") or "").split("::")[-1] in ("Simple", "Ident", "Pat"):
+                        cur = cur["args"][0]
+                        continue
+                    if hir.is_call(cur) and (hir.callee_name(cur) or cur.get("method")) in ("from", "into") and len(hir.call_args(cur)) == 1:
+                        cur = hir.call_args(cur)[0]
+                        continue
+                    break
+                ty = cur.get("ty") or ""
+                if (cur.get("k") == "Struct" and (cur["res"].get("path") or "").endswith("BindingIdent")) or ty.endswith("swc_ecma_ast::BindingIdent") or ty.endswith("swc_ecma_ast::Ident"):
+                    kind = "a bare identifier"
+            if kind:
+                check.ok(R, "%s/%s" % (R, f.name), hir.loc(x), "target is %s" % kind)
+            else:
+                check.bad(R, "%s/%s" % (R, f.name), hir.loc(x), "%s builds an assignment whose target is %s, not the input's target or a bare injected identifier: a temporary placed in it is read (the target reference is evaluated first) before the right-hand side assigns it" % (f.name, hir.describe(left[0])[:120]))
+    check.floor(R, "AssignExpr constructions", n, 2)
+
+
 def rule_reset(check):
     R = "RESET-DISCIPLINE"
     check.rule(R, "the temporary counter is reset only when control returns to the root context of a block: reset_counter <- reset_ctx [ctx.root] <- WithCtx::drop [root & auto_reset, after restoring the original ctx]; child contexts are never root; every transform that can create temporaries runs under a with_child_ctx() guard")
@@ -610,6 +659,7 @@ def run(check):
     check.guarded("DECLARE-PATH", rule_declare_path)
     check.guarded("DECLARE-FIRST", rule_declare_first)
     check.guarded("RESET-DISCIPLINE", rule_reset)
+    check.guarded("TARGET-KEPT", rule_target_kept)
     check.guarded("TYPEGRAPH", rule_typegraph)
     check.note("TRAV-IDENT: Expr::Arrow.0.body is not a hole: ARROW-BLOCK (C04) turns it into a block that the block driver visits with its own provider")
     check.rule("TRAV-IDENT", "the collision check only sees identifiers handed to visit_mut_ident: every path of the operation traversal that skips a sub-tree other than a nested block hides user identifiers from it")
